@@ -125,6 +125,28 @@ Proof.
   destruct (retry_level c =? RetryGet), (is_get r), (bodyless r); cbn in *; congruence.
 Qed.
 
+(* fuel-generic forms (used by the tie proof, where the literal 20 must stay folded) *)
+Lemma bounded_fuel fuel c r evs :
+  0 <= retry_max c -> 0 <= cross_retry c ->
+  Z.of_nat (length (retry_loop fuel c r 0 evs)) <= Z.min (Z.of_nat fuel) (1 + retry_max c + cross_retry c).
+Proof.
+  intros Hm Hc. apply Z.min_glb.
+  - pose proof (loop_length_fuel fuel c r 0 evs). lia.
+  - destruct (loop_times fuel c r 0 evs Hc) as [F S].
+    pose proof (sorted_bounded_length _ 0 (retry_max c + cross_retry c) F S). lia.
+Qed.
+
+Lemma resend_fuel fuel c r rt evs k a b :
+  nth_error (retry_loop fuel c r rt evs) k = Some a ->
+  nth_error (retry_loop fuel c r rt evs) (S k) = Some b ->
+  snd a = ConnectErr \/ (is_get r = true /\ bodyless r = true /\ retry_level c = RetryGet).
+Proof.
+  intros Ha Hb. pose proof (loop_resend fuel c r rt evs k a b Ha Hb) as H.
+  destruct (snd a); cbn in H; try discriminate; auto;
+    right; unfold check_allow_retry in H; apply andb_true_iff in H; destruct H as [H1 H3];
+    apply andb_true_iff in H1; destruct H1 as [H1 H2]; apply Z.eqb_eq in H1; auto.
+Qed.
+
 (* ---- cross attempts: exactly those beyond the in-cluster budget ---- *)
 Theorem cross_after_budget c r evs a :
   In a (attempts c r evs) -> is_cross c a = true -> retry_max c < fst a.
